@@ -246,6 +246,7 @@ type world struct {
 	tokEnd    []int64
 	tokSteps  [][][2]int64 // per worker: intervals of all its finished token steps
 	tokBroken []bool       // per worker: a token anomaly was reported, its location is no longer known
+	oplog     [][]opSpan   // per worker: interval of every executed operation (read after the workers finished)
 
 	failMu sync.Mutex
 }
@@ -297,6 +298,36 @@ func (y *yieldDS) Get(ctx context.Context, c cid.Cid) (ipld.Node, error) {
 }
 
 type auxOp struct{ call, ret int64 }
+
+type opSpan struct {
+	o         op
+	call, ret int64
+}
+
+// propagates: the operation pushes a new node up the directory chain to the
+// root (Directory.updateChildEntry ... Root.updateChildEntry -> Republisher).
+func (o op) propagates() bool {
+	switch o.kind {
+	case opWrite:
+		return o.sync || o.fdflush
+	case opFlushPathFile, opFileFlush, opTokMv, opMkdir, opSetMode, opSetMtime, opDirSetMode, opDirSetMtime, opDirFlush:
+		return true
+	}
+	return false
+}
+
+// otherPropagation reports whether an operation on another path that
+// propagates to the root overlapped [from,to].
+func (w *world) otherPropagation(key string, from, to int64) bool {
+	for _, l := range w.oplog {
+		for _, s := range l {
+			if s.o.propagates() && s.o.path != key && s.call < to && from < s.ret {
+				return true
+			}
+		}
+	}
+	return false
+}
 
 func (w *world) auxBegin() *auxOp {
 	a := &auxOp{call: w.rec.now(), ret: 1 << 62}
@@ -444,6 +475,7 @@ func oneRun(k *vlib.Case, stratum string) {
 	w.tokEnd = make([]int64, nworkers)
 	w.tokSteps = make([][][2]int64, nworkers)
 	w.tokBroken = make([]bool, nworkers)
+	w.oplog = make([][]opSpan, nworkers)
 	for i := 0; i < nworkers; i++ {
 		must(mfs.PutNode(root, fmt.Sprintf("/a/t%d", i), emptyFile()))
 	}
@@ -698,7 +730,10 @@ func (w *world) worker(wi int, plan []op) {
 	for _, o := range plan {
 		w.progress[wi].Add(1)
 		t := time.Now()
+		sp := opSpan{o: o, call: w.rec.now()}
 		w.exec(wi, o)
+		sp.ret = w.rec.now()
+		w.oplog[wi] = append(w.oplog[wi], sp)
 		if d := time.Since(t); d > 200*time.Millisecond && os.Getenv("C20_TIMING") != "" {
 			fmt.Fprintf(os.Stderr, "slow op w%d %s %v\n", wi, o, d)
 		}
@@ -1558,6 +1593,11 @@ func (w *world) summarise(completed bool) {
 				class = "lost-write/published-root-stale/file-setattr-overlap"
 			case w.stratum == "dirattr" && w.auxOverlaps(from, to):
 				class = "lost-write/published-root-stale/dir-setattr-overlap"
+			case completed && w.otherPropagation(key, from, to):
+				// two chains Directory.localUpdate -> parent.localUpdate -> Root ->
+				// Republisher.Update are not atomic with respect to each other: the
+				// older snapshot can reach the parent (or the republisher) last
+				class = "lost-write/published-root-stale/concurrent-propagation"
 			}
 			note = " (the file's own node is current; the root handed to the publish function is not)"
 		case akind == "future:"+whatFlushPathFile || akind == "phantom:"+whatFlushPathFile:
